@@ -310,57 +310,9 @@ theorem isCommentLine_comment (k : Nat) (c : String) : isCommentLine (commentFor
   rw [dropWhile_comment, codedIC_cons]
   rfl
 
-theorem noSep_comment (k : Nat) (c : String) (h : c.toList.any isExtraSep = false) :
-    (commentFor k c).any isExtraSep = false := by
-  unfold commentFor
-  rw [codedIC_eq]
-  simp only [List.any_append, List.any_cons, List.any_replicate, List.any_nil, Bool.or_false, h]
-  have h1 : IC.any isExtraSep = false := by decide
-  have h2 : isExtraSep ' ' = false := by decide
-  have h3 : isExtraSep '[' = false := by decide
-  have h4 : isExtraSep ']' = false := by decide
-  simp [h1, h2, h3, h4]
+/-! ### `_lines()` is the file's own line table (since ba62f49) -/
 
-/-! ### `_lines()` on files without extra separators -/
-
-theorem splitPieces_noSep : ∀ (l : Line), l.any isExtraSep = false → splitPieces l = [l] := by
-  intro l
-  induction l with
-  | nil => intro _; rfl
-  | cons c cs ih =>
-    intro h
-    simp only [List.any_cons, Bool.or_eq_false_iff] at h
-    simp [splitPieces, h.1, ih h.2]
-
-theorem pyLinesOf_noSep (l : Line) (h : l.any isExtraSep = false) : pyLinesOf l = [l] := by
-  unfold pyLinesOf
-  have : (l.getLast? == some '\r') = false := by
-    rw [beq_eq_false_iff_ne]
-    intro e
-    have hm := List.mem_of_getLast? e
-    have : l.any isExtraSep = true := List.any_eq_true.mpr ⟨'\r', hm, by decide⟩
-    rw [h] at this; cases this
-  simp [this, splitPieces_noSep l h]
-
-theorem noExtraSep_iff {lines : List Line} : NoExtraSep lines = true ↔ ∀ l ∈ lines, l.any isExtraSep = false := by
-  unfold NoExtraSep D16_splitlinesMismatch
-  rw [Bool.not_eq_true', List.any_eq_false]
-  constructor
-  · intro h l hl
-    exact Bool.eq_false_iff.mpr (h l hl)
-  · intro h l hl
-    rw [h l hl]; simp
-
-theorem pyLines_noSep : ∀ (lines : List Line), NoExtraSep lines = true → pyLines lines = lines := by
-  intro lines h
-  rw [noExtraSep_iff] at h
-  unfold pyLines
-  induction lines with
-  | nil => rfl
-  | cons l ls ih =>
-    simp only [List.flatMap_cons, pyLinesOf_noSep l (h l (by simp))]
-    rw [ih (fun x hx => h x (List.mem_cons_of_mem _ hx))]
-    rfl
+theorem pyLines_eq (lines : List Line) : pyLines lines = lines := rfl
 
 /-! ## 3. Inserting one line -/
 
@@ -478,7 +430,6 @@ theorem prevLineOf_insert (lines : List Line) (p : Nat) (c : Line) (e : Diag)
     simp only [h3, if_false]
     by_cases h4 : e.line ≤ 1
     · simp only [h4, if_true]
-      rw [getLast?_insertAt lines (p - 1) _ (by omega)]
     · simp only [h4, if_false]
       rw [getD_insertAt lines (p - 1) _ hi]
       have h1 : e.line - 2 < p - 1 := by omega
@@ -579,7 +530,7 @@ theorem ignoreLine_eq (pl : List Line) (d : Diag) :
     ignoreLine pl d = commentFor (getIndentation (lineAt pl d.line)) d.code := rfl
 
 /-- One round in closed form: the comment goes in above the line of the first reported diagnostic. -/
-theorem round_eq (st : St) (hsep : NoExtraSep st.lines = true)
+theorem round_eq (st : St)
     (hrange : ∀ d ∈ st.raw, 1 ≤ d.line ∧ d.line ≤ st.lines.length)
     (d : Diag) (ds : List Diag) (hv : visible st.lines st.raw = d :: ds) :
     addIgnoresRound st =
@@ -587,23 +538,19 @@ theorem round_eq (st : St) (hsep : NoExtraSep st.lines = true)
   have hd : d ∈ st.raw := (mem_visible.mp (by rw [hv]; simp)).1
   have hr := hrange d hd
   unfold addIgnoresRound
-  simp only [pyLines_noSep st.lines hsep, hv, List.map_cons, applyChanges, ignoreChange]
+  simp only [pyLines_eq st.lines, hv, List.map_cons, applyChanges, ignoreChange]
   rw [applyChange_insert st.lines d.line _ hr.1 hr.2]
 
-theorem round_fix (st : St) (hsep : NoExtraSep st.lines = true) (hv : visible st.lines st.raw = []) :
+theorem round_fix (st : St) (hv : visible st.lines st.raw = []) :
     addIgnoresRound st = st := by
   unfold addIgnoresRound
-  simp only [pyLines_noSep st.lines hsep, hv]
+  simp only [pyLines_eq st.lines, hv]
 
-theorem diags_eq (st : St) (hsep : NoExtraSep st.lines = true) : st.diags = visible st.lines st.raw := by
-  unfold St.diags
-  rw [pyLines_noSep st.lines hsep]
+theorem diags_eq (st : St) : st.diags = visible st.lines st.raw := rfl
 
 /-! ### The scope predicate unfolded -/
 
 structure Inv0 (st : St) : Prop where
-  sep : NoExtraSep st.lines = true
-  clean : ∀ d ∈ st.raw, d.code.toList.any isExtraSep = false
   range : ∀ d ∈ st.raw, 1 ≤ d.line ∧ d.line ≤ st.lines.length
   head : ∀ d ∈ st.raw, inHeader st.lines d.line = false
 
@@ -613,12 +560,8 @@ structure Inv (st : St) : Prop extends Inv0 st where
 theorem inv_of_ok {st : St} (h : AddIgnoresOK st = true) : Inv st := by
   unfold AddIgnoresOK at h
   simp only [Bool.and_eq_true, Bool.not_eq_true'] at h
-  obtain ⟨⟨⟨⟨h1, h2⟩, h3⟩, h4⟩, h5⟩ := h
-  refine ⟨⟨h1, ?_, ?_, ?_⟩, ?_⟩
-  · intro d hd
-    unfold CleanCodes at h2
-    have := List.all_eq_true.mp h2 d hd
-    simpa using this
+  obtain ⟨⟨h3, h4⟩, h5⟩ := h
+  refine ⟨⟨?_, ?_⟩, ?_⟩
   · intro d hd
     unfold InRange at h3
     have := List.all_eq_true.mp h3 d hd
@@ -638,11 +581,7 @@ theorem inv_of_ok {st : St} (h : AddIgnoresOK st = true) : Inv st := by
 theorem ok_of_inv {st : St} (h : Inv st) : AddIgnoresOK st = true := by
   unfold AddIgnoresOK
   simp only [Bool.and_eq_true, Bool.not_eq_true']
-  refine ⟨⟨⟨⟨h.sep, ?_⟩, ?_⟩, ?_⟩, ?_⟩
-  · unfold CleanCodes
-    apply List.all_eq_true.mpr
-    intro d hd
-    simpa using h.clean d hd
+  refine ⟨⟨?_, ?_⟩, ?_⟩
   · unfold InRange
     apply List.all_eq_true.mpr
     intro d hd
@@ -660,17 +599,6 @@ theorem ok_of_inv {st : St} (h : Inv st) : AddIgnoresOK st = true := by
     simpa using h.head d hd
 
 /-! ### Invariants are kept by a round -/
-
-theorem noExtraSep_insertAt {lines : List Line} (i : Nat) {l : Line} (h : NoExtraSep lines = true)
-    (hl : l.any isExtraSep = false) : NoExtraSep (insertAt lines i l) = true := by
-  rw [noExtraSep_iff] at *
-  intro x hx
-  unfold insertAt at hx
-  rcases List.mem_append.mp hx with hx | hx
-  · exact h x (List.mem_of_mem_take hx)
-  · rcases List.mem_cons.mp hx with rfl | hx
-    · exact hl
-    · exact h x (List.mem_of_mem_drop hx)
 
 theorem inHeader_false_iff {lines : List Line} {p : Nat} :
     inHeader lines p = false ↔ ∃ j, j < p - 1 ∧ ∃ l, lines[j]? = some l ∧ startsHash l = false := by
@@ -691,17 +619,13 @@ theorem inHeader_false_iff {lines : List Line} {p : Nat} :
 
 theorem inv0_round {st : St} (h : Inv0 st) : Inv0 (addIgnoresRound st) := by
   cases hv : visible st.lines st.raw with
-  | nil => rw [round_fix st h.sep hv]; exact h
+  | nil => rw [round_fix st hv]; exact h
   | cons d ds =>
-    rw [round_eq st h.sep h.range d ds hv]
+    rw [round_eq st h.range d ds hv]
     have hd : d ∈ st.raw := (mem_visible.mp (by rw [hv]; simp)).1
     have hr := h.range d hd
     have hi : d.line - 1 ≤ st.lines.length := by omega
-    refine ⟨?_, ?_, ?_, ?_⟩
-    · exact noExtraSep_insertAt _ h.sep (by rw [ignoreLine_eq]; exact noSep_comment _ _ (h.clean d hd))
-    · intro e he
-      obtain ⟨e0, he0, rfl⟩ := List.mem_map.mp he
-      rw [shiftDiag_code]; exact h.clean e0 he0
+    refine ⟨?_, ?_⟩
     · intro e he
       obtain ⟨e0, he0, rfl⟩ := List.mem_map.mp he
       have := h.range e0 he0
@@ -726,9 +650,9 @@ theorem inv0_round {st : St} (h : Inv0 st) : Inv0 (addIgnoresRound st) := by
 theorem inv_round {st : St} (h : Inv st) : Inv (addIgnoresRound st) := by
   refine ⟨inv0_round h.toInv0, ?_⟩
   cases hv : visible st.lines st.raw with
-  | nil => rw [round_fix st h.sep hv]; exact h.one
+  | nil => rw [round_fix st hv]; exact h.one
   | cons d ds =>
-    rw [round_eq st h.sep h.range d ds hv]
+    rw [round_eq st h.range d ds hv]
     intro e he f hf hl
     obtain ⟨e0, he0, rfl⟩ := List.mem_map.mp he
     obtain ⟨f0, hf0, rfl⟩ := List.mem_map.mp hf
@@ -755,7 +679,7 @@ theorem visible_after_round {st : St} (h : Inv st) (d : Diag) (ds : List Diag)
     visible (addIgnoresRound st).lines (addIgnoresRound st).raw =
       ((d :: ds).filter fun e => !decide (e.line = d.line)).map (shiftDiag d.line) := by
   have hd : d ∈ st.raw := (mem_visible.mp (by rw [hv]; simp)).1
-  rw [round_eq st h.sep h.range d ds hv, ← hv]
+  rw [round_eq st h.range d ds hv, ← hv]
   unfold visible
   simp only
   rw [List.filter_map, List.filter_filter]
@@ -778,14 +702,14 @@ theorem terminates_aux : ∀ (k : Nat) (st : St), Inv st → (visible st.lines s
   | zero =>
     intro st h hk
     refine ⟨0, Nat.le_refl _, ?_, h⟩
-    simp only [iterate, diags_eq st h.sep]
+    simp only [iterate, diags_eq st]
     exact List.eq_nil_of_length_eq_zero (Nat.le_zero.mp hk)
   | succ k ih =>
     intro st h hk
     cases hv : visible st.lines st.raw with
     | nil =>
       refine ⟨0, Nat.zero_le _, ?_, h⟩
-      simp only [iterate, diags_eq st h.sep, hv]
+      simp only [iterate, diags_eq st, hv]
     | cons d ds =>
       have hlt := visible_length_lt h d ds hv
       obtain ⟨n, hn, h1, h2⟩ := ih (addIgnoresRound st) (inv_round h) (by omega)
@@ -800,13 +724,13 @@ theorem codeLines_insertAt (lines : List Line) (i : Nat) (l : Line) (hl : isComm
   simp only [hl, Bool.not_true, Bool.false_eq_true, if_false]
   rw [← List.filter_append, List.take_append_drop]
 
-theorem codeLines_round {st : St} (hsep : NoExtraSep st.lines = true)
+theorem codeLines_round {st : St}
     (hrange : ∀ d ∈ st.raw, 1 ≤ d.line ∧ d.line ≤ st.lines.length) :
     codeLines (addIgnoresRound st).lines = codeLines st.lines := by
   cases hv : visible st.lines st.raw with
-  | nil => rw [round_fix st hsep hv]
+  | nil => rw [round_fix st hv]
   | cons d ds =>
-    rw [round_eq st hsep hrange d ds hv]
+    rw [round_eq st hrange d ds hv]
     exact codeLines_insertAt _ _ _ (by rw [ignoreLine_eq]; exact isCommentLine_comment _ _)
 
 theorem codeLines_iterate : ∀ (n : Nat) (st : St), Inv st → codeLines (iterate n st).lines = codeLines st.lines := by
@@ -816,7 +740,7 @@ theorem codeLines_iterate : ∀ (n : Nat) (st : St), Inv st → codeLines (itera
   | succ n ih =>
     intro st h
     simp only [iterate]
-    rw [ih _ (inv_round h), codeLines_round h.sep h.range]
+    rw [ih _ (inv_round h), codeLines_round h.range]
 
 /-! ### Two codes on one line: the loop never ends -/
 
@@ -857,7 +781,7 @@ theorem stuck_round {st : St} (h : Inv0 st) (hs : Stuck st) : Stuck (addIgnoresR
   cases hv : visible st.lines st.raw with
   | nil => exact absurd hv (stuck_visible hs)
   | cons e es =>
-    rw [round_eq st h.sep h.range e es hv]
+    rw [round_eq st h.range e es hv]
     have he : e ∈ st.raw := (mem_visible.mp (by rw [hv]; simp)).1
     have hr := h.range e he
     obtain ⟨d1, d2, h1, h2, hl, hc, hf1, hf2, ht1, ht2, hp⟩ := hs
@@ -880,7 +804,7 @@ theorem stuck_forever : ∀ (n : Nat) (st : St), Inv0 st → Stuck st → (itera
   induction n with
   | zero =>
     intro st h hs
-    simp only [iterate, diags_eq st h.sep]
+    simp only [iterate, diags_eq st]
     exact stuck_visible hs
   | succ n ih =>
     intro st h hs
@@ -911,12 +835,8 @@ theorem mainLoop_never_done (limit : Nat) : ∀ (fuel it : Nat) (st : St),
 theorem inv0_of_scope {st : St} (h : AddIgnoresScope st = true) : Inv0 st := by
   unfold AddIgnoresScope at h
   simp only [Bool.and_eq_true, Bool.not_eq_true'] at h
-  obtain ⟨⟨⟨h1, h2⟩, h3⟩, h5⟩ := h
-  refine ⟨h1, ?_, ?_, ?_⟩
-  · intro d hd
-    unfold CleanCodes at h2
-    have := List.all_eq_true.mp h2 d hd
-    simpa using this
+  obtain ⟨h3, h5⟩ := h
+  refine ⟨?_, ?_⟩
   · intro d hd
     unfold InRange at h3
     have := List.all_eq_true.mp h3 d hd
@@ -980,75 +900,52 @@ theorem extend_step (first : Line) (lines : List Line) (n : Nat) (hn : 1 ≤ n) 
   simp [this]
 
 theorem lineRange_exact (lines : List Line) (first stmtEnd : Nat) (h1 : 1 ≤ first) (h2 : first ≤ stmtEnd)
-    (h3 : stmtEnd ≤ lines.length) (hD : D16_stmtRange lines first stmtEnd = false) :
+    (h3 : stmtEnd ≤ lines.length) (hD : D16_stmtRangeOverrun lines first stmtEnd = false) :
     lineRange lines first stmtEnd = specRange first stmtEnd := by
-  unfold D16_stmtRange at hD
-  simp only [Bool.or_eq_false_iff, Bool.and_eq_false_iff, decide_eq_false_iff_not, Bool.not_eq_false'] at hD
-  obtain ⟨hA, hB⟩ := hD
+  unfold D16_stmtRangeOverrun at hD
+  simp only [Bool.and_eq_false_iff, decide_eq_false_iff_not] at hD
   have hnext : stmtEnd + 1 ≤ lines.length →
       isPartOfSameNode (lineAt lines first) (lineAt lines (stmtEnd + 1)) = false := by
     intro hh
-    rcases hB with hB | hB
+    rcases hD with hB | hB
     · omega
     · exact hB
   unfold lineRange specRange
-  by_cases he : first = stmtEnd
-  · subst he
-    have hm : max (first + 1) first = first + 1 := by omega
-    simp only [hm]
-    have := extend_stop (lineAt lines first) lines (first + 1) (by omega) hnext
-    simp only [Nat.add_sub_cancel] at this ⊢
-    rw [this]
-  · have hlt : first < stmtEnd := by omega
-    have hm : max (first + 1) stmtEnd = stmtEnd := by omega
-    simp only [hm]
-    have hpart : isPartOfSameNode (lineAt lines first) (lineAt lines stmtEnd) = true := by
-      rcases hA with hA | hA
-      · omega
-      · exact hA
-    rw [extend_step _ lines stmtEnd (by omega) h3 hpart]
-    have := extend_stop (lineAt lines first) lines (stmtEnd + 1) (by omega) hnext
-    simp only [Nat.add_sub_cancel] at this
-    rw [this]
+  have hm : max (first + 1) (stmtEnd + 1) = stmtEnd + 1 := by omega
+  simp only [hm]
+  have := extend_stop (lineAt lines first) lines (stmtEnd + 1) (by omega) hnext
+  simp only [Nat.add_sub_cancel] at this ⊢
+  rw [this]
 
 theorem lineRange_wrong (lines : List Line) (first stmtEnd : Nat) (h1 : 1 ≤ first) (h2 : first ≤ stmtEnd)
-    (h3 : stmtEnd ≤ lines.length) (hD : D16_stmtRange lines first stmtEnd = true) :
+    (h3 : stmtEnd ≤ lines.length) (hD : D16_stmtRangeOverrun lines first stmtEnd = true) :
     lineRange lines first stmtEnd ≠ specRange first stmtEnd := by
   intro e
   have hlen := congrArg List.length e
   unfold lineRange specRange at hlen
   simp only [List.length_range'] at hlen
-  unfold D16_stmtRange at hD
-  simp only [Bool.or_eq_true, Bool.and_eq_true, decide_eq_true_eq, Bool.not_eq_true'] at hD
-  rcases hD with ⟨hlt, hnp⟩ | ⟨hlt, hp⟩
-  · -- the last line of the statement is not recognised
-    have hm : max (first + 1) stmtEnd = stmtEnd := by omega
-    rw [hm] at hlen
-    have := extend_stop (lineAt lines first) lines stmtEnd (by omega) (fun _ => hnp)
-    rw [this] at hlen
-    omega
-  · -- the line after the statement is swallowed
-    by_cases he : first = stmtEnd
-    · subst he
-      have hm : max (first + 1) first = first + 1 := by omega
-      rw [hm] at hlen
-      have hs := extend_step (lineAt lines first) lines (first + 1) (by omega) (by omega) hp
-      simp only [Nat.add_sub_cancel] at hs hlen
-      rw [hs] at hlen
-      have := extend_ge (lineAt lines first) (lines.drop (first + 1)) (first + 1 + 1)
-      omega
-    · have hm : max (first + 1) stmtEnd = stmtEnd := by omega
-      rw [hm] at hlen
-      by_cases hpart : isPartOfSameNode (lineAt lines first) (lineAt lines stmtEnd) = true
-      · rw [extend_step _ lines stmtEnd (by omega) h3 hpart] at hlen
-        have hs := extend_step (lineAt lines first) lines (stmtEnd + 1) (by omega) (by omega) hp
-        simp only [Nat.add_sub_cancel] at hs
-        rw [hs] at hlen
-        have := extend_ge (lineAt lines first) (lines.drop (stmtEnd + 1)) (stmtEnd + 1 + 1)
-        omega
-      · have := extend_stop (lineAt lines first) lines stmtEnd (by omega) (fun _ => by simpa using hpart)
-        rw [this] at hlen
-        omega
+  unfold D16_stmtRangeOverrun at hD
+  simp only [Bool.and_eq_true, decide_eq_true_eq] at hD
+  obtain ⟨hlt, hp⟩ := hD
+  have hm : max (first + 1) (stmtEnd + 1) = stmtEnd + 1 := by omega
+  rw [hm] at hlen
+  have hs := extend_step (lineAt lines first) lines (stmtEnd + 1) (by omega) (by omega) hp
+  simp only [Nat.add_sub_cancel] at hs hlen
+  rw [hs] at hlen
+  have := extend_ge (lineAt lines first) (lines.drop (stmtEnd + 1)) (stmtEnd + 1 + 1)
+  omega
+
+/-- The range never falls short of the statement any more (the defect d5dca9e repaired). -/
+theorem lineRange_covers (lines : List Line) (first stmtEnd : Nat) (h2 : first ≤ stmtEnd) :
+    ∀ k ∈ specRange first stmtEnd, k ∈ lineRange lines first stmtEnd := by
+  intro k hk
+  unfold specRange at hk
+  unfold lineRange
+  rw [List.mem_range'_1] at hk ⊢
+  have hm : max (first + 1) (stmtEnd + 1) = stmtEnd + 1 := by omega
+  simp only [hm]
+  have := extend_ge (lineAt lines first) (lines.drop (stmtEnd + 1 - 1)) (stmtEnd + 1)
+  omega
 
 /-! ### Applying a replacement that names a whole block of lines -/
 
